@@ -1,5 +1,6 @@
 import AiutiVerif.Batcher.Outcome
 import AiutiVerif.Batcher.Invariant
+import AiutiVerif.Batcher.NoDup
 /-!
 # Batcher property theorems (C04, C09, C10, C11)
 
@@ -7,6 +8,9 @@ Stated about `Batcher/Model.lean`.  Machine-level invariants (C10 size / slots /
 `Batcher/Invariant.lean` and re-exported here.
 -/
 namespace AiutiVerif.Batcher
+
+/-- a batch function that answers every key with a value, taking 5 ticks per item -/
+def demoPlanK : Plan := { per := [], order := 0, raiseAt := [], idelay := 5, tail := 0 }
 
 /-! ## C04 — each caller gets exactly its own outcome, and always an answer -/
 
@@ -144,6 +148,41 @@ theorem C11_fresh_adds_work (s : St) (t cid arg key : Nat)
     s1.retention = s0.retention ++ [(key, s0.futs.length)] ∧
     s1.waiting = s0.waiting ++ [(cid, s0.futs.length)] := by
   simp [applyIn, In.time, h]
+
+/-! ## C11 — no batch ever carries a key twice, for every program of inputs -/
+
+/-- **No duplicate key in a batch.** For every freshly constructed batcher (any configuration, any
+retention timeout, any plan of the batch function) and every list of timed inputs (calls with any
+keys — shared, repeated, re-requested inside or after the retention window —, cancellations of any
+caller at any instant, `max_batch_size` mutations), every batch ever announced to the batch function
+carries pairwise distinct keys.  From the machine invariant `R` (`Batcher/NoDup.lean`): a key is
+put to work only while it is not remembered; it stays remembered, mapped to the very future that
+stands for that work, until the future is resolved; eviction timers only concern keys whose
+remembered future is resolved. -/
+theorem C11_no_duplicate_key (s0 : St) (hf : Fresh2 s0) (ins : List In) :
+    ∀ t id ks, Out.batch t id ks ∈ (runProgram s0 ins).outs → ks.Nodup :=
+  (runProgram_Rq s0 ins (Rq_fresh s0 hf)).1.batchesOk
+
+theorem C11_no_duplicate_key_prefix (s0 : St) (hf : Fresh2 s0) (ins : List In) :
+    ∀ t id ks, Out.batch t id ks ∈ (ins.foldl applyIn s0).outs → ks.Nodup :=
+  (foldl_applyIn_Rq ins s0 (Rq_fresh s0 hf)).1.batchesOk
+
+/-- … and at every instant the pieces of work that have not reached the batch function yet (waiting
+for a slot, being assembled, queued) have pairwise distinct keys, each remembered with its own,
+still pending future. -/
+theorem C11_pending_work_distinct (s0 : St) (hf : Fresh2 s0) (ins : List In) :
+    let s := ins.foldl applyIn s0
+    let work := flatI s.semWait ++ (asmI s ++ s.queue)
+    (work.map Item.key).Nodup ∧ ∀ it ∈ work, (it.key, it.fut) ∈ s.retention ∧ futState s it.fut = none := by
+  intro s work
+  have h := (foldl_applyIn_Rq ins s0 (Rq_fresh s0 hf)).1
+  have h' : R s (work ++ []) := by rw [List.append_nil]; exact h
+  obtain ⟨h0, hrd⟩ := h'.dropFront
+  exact ⟨hrd.keysNodup h0, fun it hit => ⟨(h.pipeRet it hit).1, (h.pipeRet it hit).2.1⟩⟩
+
+/-- three calls for one key inside the retention window: one piece of work, one batch -/
+example : (runProgram { maxb := 3, maxc := 1, bt := 10, ret := 100, plan := demoPlanK }
+    [.call 0 0 0 7, .call 1 1 0 7, .call 50 2 0 7, .call 500 3 0 7]).batchLog = [(1, 3), (1, 3)] := by decide +kernel
 
 /-! ## C10 — size, slots, FIFO: for every program of inputs, at every instant
 
